@@ -459,13 +459,20 @@ fn protocols(rep: &mut Report, input: &str) {
 
 pub fn run(which: &str, tier: Tier, rep: &mut Report) -> (String, String) {
     let atoms = [" ", "a", ",", "ñ", "1", "-", "true"];
-    let n = tier.pick(3, 4, 2);
+    let n = tier.pick(3, 4, 1);
     let mut inputs = strings_over(&atoms, n);
     // a few longer inputs with richer structure (whitespace classes, overlapping needles, numbers at type limits)
     for s in ["  a, a ,ñ  ", "\t\n\x0C a\r ", "aaa,aa,a", ",,a,,", "-128,255,256,-129", "truefalse,true", "a,a,a,a,", "ñañ,ñ", "340282366920938463463374607431768211455,-170141183460469231731687303715884105728x"] {
         inputs.push(s.to_string());
     }
+    if tier == Tier::Miri {
+        inputs = vec![" a,ñ".to_string()];
+    }
     let r = par_each(&inputs, n_threads(tier), |s, r| {
+        if tier == Tier::Miri {
+            explore_input(r, s, "with_start_offset", 5, None);
+            return;
+        }
         explore_input(r, s, "new", 0, None);
         explore_input(r, s, "with_start_offset", 0, None);
         explore_input(r, s, "with_start_offset", 5, None);
